@@ -477,6 +477,7 @@ type LoopSpec struct {
 	Hint       string
 	Invariants []*Clause
 	Iter       []*Clause // "iter ensures": per-iteration postconditions (old = loop head)
+	Exit       []*Clause // "exit ensures": holds on every way out of the loop other than return (exhaustion, break)
 	Decreases  *Clause
 }
 
@@ -558,7 +559,7 @@ type SpecFile struct {
 
 var clauseKeywords = map[string]bool{
 	"requires": true, "ensures": true, "modifies": true, "invariant": true, "loop": true,
-	"iter": true, "decreases": true, "emits": true, "recvinv": true, "flag": true, "use": true, "prop": true, "induction": true,
+	"iter": true, "exit": true, "decreases": true, "emits": true, "recvinv": true, "flag": true, "use": true, "prop": true, "induction": true,
 	"field": true, "assumed": true, "pure": true, "end": true,
 }
 var headerKeywords = map[string]bool{"func": true, "type": true, "spec": true, "lemma": true, "ghost": true, "axiom": true, "package": true}
@@ -772,6 +773,16 @@ func parseSpecText(path, pkgPath string, lines []string, lineNos []int) (*SpecFi
 				return nil, err
 			}
 			curLoop.Iter = append(curLoop.Iter, c)
+		case "exit":
+			if curLoop == nil {
+				return nil, fmt.Errorf("%s:%d: exit outside loop", path, it.line)
+			}
+			r := strings.TrimSpace(strings.TrimPrefix(rest, "ensures"))
+			c, err := mkClause("exit", r, it.line)
+			if err != nil {
+				return nil, err
+			}
+			curLoop.Exit = append(curLoop.Exit, c)
 		case "decreases":
 			c, err := mkClause(kw, rest, it.line)
 			if err != nil {
